@@ -169,6 +169,28 @@ def body(chk):
         uitems.append(f"({n}%nat, ({hexf(a[0])}, {hexf(a[1])}), ({hexf(b[0])}, {hexf(b[1])}), ({flist(L)}, {flist(R)}))")
         uflat.append((site, replay))
 
+    # the bespoke exponential constructor parameterised by the rate: oracle only (members sampled over the rate interval)
+    import scipy.stats as sps
+    for _ in range(6 if chk.tier == "quick" else 40):
+        lam = gen_param(rng, "scale", rng.choice(["zero", "abs", "rel1e-6", "wide", "tiny"]))
+        sl, kl = spell(rng, lam)
+        site = "parametric:exponential_by_lambda"
+        chk.count("exponential_by_lambda", key=(lam, kl))
+        replay = {"kind": "oracle", "family": "exponential_by_lambda", "rate": list(lam), "spelling": kl}
+        try:
+            p = pba.exponential_by_lambda(sl if kl != "number" else [lam[0], lam[1]])
+            L, R = np.asarray(p.left, float), np.asarray(p.right, float)
+        except Exception as e:
+            chk.report(site, f"pba.exponential_by_lambda({list(lam)}) fails: {type(e).__name__}: {str(e)[:80]}", replay)
+            continue
+        for th in members(rng, [lam], 6):
+            q = np.asarray(sps.expon(scale=1 / th[0]).ppf(pv), float)
+            tol = 16 * np.spacing(np.maximum(np.abs(q), 1e-300))
+            if ((q < L - tol) | (q > R + tol)).any():
+                k = int(np.argmax(np.maximum(L - q, q - R)))
+                chk.report(site, f"pba.exponential_by_lambda({list(lam)}): the member with rate {th[0]} has quantile {q[k]!r} at level {pv[k]:.4f} outside the bounds [{L[k]!r}, {R[k]!r}]",
+                           dict(replay, member=th))
+                break
     chunks = []
     CH = 6
     for s in range(0, len(items), CH):
